@@ -350,13 +350,22 @@ pub fn probe_wrapper(c: Box<dyn Contract<Empty, Empty>>, _rt: &Rt) -> Vec<String
         Err(_) => "absent".into(),
     };
     #[allow(deprecated)]
-    let reply = Reply { id: 1, payload: Binary::default(), gas_used: 0, result: SubMsgResult::Ok(SubMsgResponse { events: vec![], data: None, msg_responses: vec![] }) };
+    let reply_with = |id: u64, ok: bool| Reply {
+        id,
+        payload: if id % 2 == 0 { Binary::default() } else { Binary::from(b"payload".to_vec()) },
+        gas_used: 0,
+        result: if ok { SubMsgResult::Ok(SubMsgResponse { events: vec![], data: None, msg_responses: vec![] }) } else { SubMsgResult::Err("failed".into()) },
+    };
+    // the reply entry point is the same for every reply: boundary ids, with and without payload, Ok and Err results
+    let mut reply_names: Vec<String> = [(0u64, true), (1, true), (u64::MAX, false), (0, false)].iter().map(|(id, ok)| attr(c.reply(deps.as_mut(), env.clone(), reply_with(*id, *ok)))).collect();
+    reply_names.dedup();
+    let reply_line = if reply_names.len() == 1 { reply_names[0].clone() } else { format!("differs between replies: {:?}", reply_names) };
     let mut out = vec![
         format!("execute: {}", attr(c.execute(deps.as_mut(), env.clone(), info.clone(), b"{}".to_vec()))),
         format!("instantiate: {}", attr(c.instantiate(deps.as_mut(), env.clone(), info, b"{}".to_vec()))),
         format!("query: {}", c.query(deps.as_ref(), env.clone(), b"{}".to_vec()).map(|b| String::from_utf8_lossy(&b).to_string()).unwrap_or_else(|_| "err".into())),
         format!("sudo: {}", attr(c.sudo(deps.as_mut(), env.clone(), b"{}".to_vec()))),
-        format!("reply: {}", attr(c.reply(deps.as_mut(), env.clone(), reply))),
+        format!("reply: {}", reply_line),
         format!("migrate: {}", attr(c.migrate(deps.as_mut(), env, b"{}".to_vec()))),
         format!("checksum: {}", c.checksum().map(|c| c.to_hex()).unwrap_or_else(|| "none".into())),
     ];
